@@ -64,3 +64,10 @@ _add('C18',
      'networks; the detector digraph and the networkx knot search are tied to the model at every frame and on random digraphs.',
      'Mechanism clauses (digraph = wait-for relation; knot search = structural definition) are correspondence obligations: if only they fail the '
      'check reports no-failing-input-found. networkx itself is trusted library code tied by differential testing.')
+_add('C10',
+     'T1 C10_sound (Coq, induction over event lists of any length via Replay.replay_sound): on every accepted run each arrival event of a stream '
+     'happens at the sum of the inter-arrival samples the distribution object returned so far (one sample per arrival, and no arrival is overdue when '
+     'the clock moves), customers created = the sampled batch sizes, every uninterrupted service at an ordinary node lasts exactly the value sampled '
+     'for that customer at its start instant, and a sample that is not a non-negative number (batch: non-negative integer) ends the run with an error. '
+     'K1: observed runs on all regions + a malformed-sample stream (negative, nan, non-numeric, non-integer batch).',
+     'Samples are logged inside the scripted distribution objects (the oracle), independently of the engine attributes they are compared with.')
